@@ -14,7 +14,7 @@ for d in sorted((ROOT / "seeded").iterdir()):
     checks = []
     for pid, xs in m.get("checks", {}).items():
         for x in xs:
-            checks.append(f"{pid}:{'detected' if x['exit'] == 1 else ('ERROR' if x['exit'] == 2 else 'missed')}@seed{x['seed']} ({x['wall_s']}s)")
+            checks.append(f"{pid}:{'detected' if x['exit'] == 1 else ('ERROR' if x['exit'] == 2 else 'missed')}@seed{x['seed']} ({x['wall_s']}s{', harness ' + x['harness'] if x.get('harness') else ''})")
     esc = lambda t: str(t or "").replace("|", "\\|").replace("\n", " ")
     rows.append(f"| {m['id']} | {m['property']} | {esc(m.get('summary'))} | {esc(m.get('needs_to_manifest'))} | {'pass' if v.get('suite_passes') else esc(v.get('suite'))} | "
                 f"{v.get('demo_exit_unpatched')}→{v.get('demo_exit_patched')} | {'; '.join(checks)} | {esc(m.get('history'))} |")
